@@ -21,7 +21,7 @@ Definition lit (l : list Z) (i : nat) : Z := nth i l 0.
 (* FillBig's text *)
 Definition fill_text (n : num) : bytes :=
   (if nNeg n then [x2d] else []) ++ format_uint (nI n) ++
-  (if cmpz (lit gen_num_FillBig_ops 0) (lit gen_num_FillBig_lits 0) (nFrac n) then
+  (if cmpz (lit gen_num_FillBig_ops 0) (lit gen_num_FillBig_lits 0) (nDiv n) then
      x2e :: (if cmpz (lit gen_num_FillBig_ops 1) (lit gen_num_FillBig_lits 1) (nFrac n)
              then format_uint (nFrac n)
              else tl (format_uint (wrap64 (nFrac n + nDiv n))))
